@@ -313,6 +313,9 @@ def make_func(ctx: Ctx, spec: dict, flavour: str):
 
     else:
         src = f"def {_pyname(fid)}({sig}){ret}:\n    return _impl('{fid}', {args})\n"
+        if spec.get("gen_style") and kind == "func":
+            # a (sync) generator function: its body only runs when the executor drains it
+            src = f"def {_pyname(fid)}({sig}){ret}:\n    yield _impl('{fid}', {args})\n"
 
         def _impl(_fid, a):
             ctx.inflight += 1
